@@ -31,6 +31,8 @@ type c19Case struct {
 	// CancelAt: the caller's context is cancelled while the client waits for the (positive, 40 ms late)
 	// reply of that step of the dial dialogue; whatever the call returns, no connection stays open.
 	CancelAt string `json:"cancel_at,omitempty"`
+	// NoDeadlines: the transport handed to the client does not support deadlines (SetDeadline fails).
+	NoDeadlines bool `json:"no_deadlines,omitempty"`
 }
 
 var (
@@ -74,7 +76,7 @@ func c19Exec(c *c19Case) (d *refsmtp.Dialer, callErr error, res callResult, clos
 	if cancel != nil {
 		srv.LateHook = func(string) { cancel() }
 	}
-	d = &refsmtp.Dialer{Srv: srv}
+	d = &refsmtp.Dialer{Srv: srv, NoDeadlines: c.NoDeadlines}
 	cl, err := mail.NewClient(refHost, c.Cfg.options(d)...)
 	if err != nil {
 		return nil, nil, res, nil, core.V("HARNESS-newclient", "%v", err)
@@ -135,9 +137,9 @@ func c19Run(c c19Case) []*core.Violation {
 		keys = append(keys, k+"="+o.Kind+fmt.Sprint(o.Code/100))
 	}
 	sort.Strings(keys)
-	injected := len(keys) > 0 || c.BadCert || callErr != nil || c.CancelAt != ""
+	injected := len(keys) > 0 || c.BadCert || callErr != nil || c.CancelAt != "" || c.NoDeadlines || c.Cfg.HELO != ""
 	if injected {
-		rec.NonTrivial(core.Join(c.Cfg.TLS, c.Cfg.Auth, strings.Join(c.Caps, ","), strings.Join(keys, ","), c.Call, c.BadCert, c.NMsgs, c.CancelAt))
+		rec.NonTrivial(core.Join(c.Cfg.TLS, c.Cfg.Auth, strings.Join(c.Caps, ","), strings.Join(keys, ","), c.Call, c.BadCert, c.NMsgs, c.CancelAt, c.NoDeadlines, core.Hash(c.Cfg.HELO)))
 		rec.Sample(c.Cfg.TLS+"/"+c.Cfg.Auth+"/"+c.Call, map[string]interface{}{"tls": c.Cfg.TLS, "auth": c.Cfg.Auth, "caps": c.Caps, "faults": keys, "bad_cert": c.BadCert, "call": c.Call, "error": fmt.Sprint(callErr)})
 	}
 	if callErr != nil {
@@ -182,7 +184,7 @@ func c19Configs() []c19Case {
 
 func c19Describe() {
 	rec := core.Rec("C19")
-	rec.Rule = "TestC19Enum: for every combination of TLS policy {none, opportunistic, mandatory} x auth {none, PLAIN-NOENC, LOGIN-NOENC, CRAM-MD5, XOAUTH2, SCRAM-SHA-256 (server rejects), AUTODISCOVER} x call {DialWithContext then Close, DialAndSend} x capability variant {STARTTLS+AUTH, no STARTTLS, no AUTH, foreign mechanism only} (+ untrusted server certificate for the TLS policies), the fault-free dialogue is recorded and EVERY step id in it is answered with each of {4yz, 5yz, drop, garbage}; and at every EHLO/STARTTLS/AUTH/NOOP step the caller's context is cancelled while the client waits for the (positive, 40 ms late) reply. " +
+	rec.Rule = "TestC19Enum: for every combination of TLS policy {none, opportunistic, mandatory} x auth {none, PLAIN-NOENC, LOGIN-NOENC, CRAM-MD5, XOAUTH2, SCRAM-SHA-256 (server rejects), AUTODISCOVER} x call {DialWithContext then Close, DialAndSend} x capability variant {STARTTLS+AUTH, no STARTTLS, no AUTH, foreign mechanism only} (+ untrusted server certificate for the TLS policies), the fault-free dialogue is recorded and EVERY step id in it is answered with each of {4yz, 5yz, drop, garbage}; the fault-free dialogue over a transport without deadline support and with HELO names the library refuses locally after the connection was opened; and at every EHLO/STARTTLS/AUTH/NOOP step the caller's context is cancelled while the client waits for the (positive, 40 ms late) reply. " +
 		"TestC19: rapid draws configurations with 0..3 faults at drawn steps and 1..2 messages. " +
 		"TestC19TCP: real TCP with the library's DEFAULT dialers (net.Dialer; tls.Dialer for implicit TLS), implicit TLS and STARTTLS x auth {none, PLAIN, CRAM-MD5} x every step answered 554/451/garbage, plus handshakes that fail after the TCP connect succeeded (certificate of an unknown CA, certificate for another name, a plain-text speaker on the implicit-TLS port); oracle there: the server sees every connection end within 2 s of the call's return, with the garbage collector switched off. " +
 		"Oracle: connections are handed out through WithDialContextFunc as tracking net.Conns; when the call returned an error after a connection was opened, Close must have been called on it by the time the call returned; a successful DialAndSend sent QUIT and closed the connection; a connection closed by the caller (Client.Close) is closed even when QUIT fails. " +
@@ -206,6 +208,14 @@ func TestC19Enum(t *testing.T) {
 		}
 		if v := p.RunOne(base); v != nil {
 			t.Fatalf("VIOLATION-DETAIL property=C19 %s", v)
+		}
+		for _, variant := range []func(c *c19Case){func(c *c19Case) { c.NoDeadlines = true }, func(c *c19Case) { c.Cfg.HELO = "mail gateway" }, func(c *c19Case) { c.Cfg.HELO = "x\r\nRSET" }} {
+			c := base
+			variant(&c)
+			core.Rec("C19").AddExtra("enumerated_transport_and_helo_variants", 1)
+			if v := p.RunOne(c); v != nil {
+				t.Fatalf("VIOLATION-DETAIL property=C19 %s", v)
+			}
 		}
 		var steps []string
 		if len(d.Sessions) > 0 {
@@ -251,6 +261,13 @@ func c19Gen(t *rapid.T) c19Case {
 	c.Steps = map[string]refsmtp.Outcome{}
 	for i := 0; i < n; i++ {
 		c.Steps[rapid.SampledFrom(steps).Draw(t, "step")] = rapid.SampledFrom(append(c19Outcomes, refsmtp.Outcome{Kind: "dropafter", Code: 421, Text: "bye"})).Draw(t, "outcome")
+	}
+	if rapid.IntRange(0, 7).Draw(t, "nodeadlines") == 0 {
+		c.NoDeadlines = true
+	}
+	if rapid.IntRange(0, 7).Draw(t, "helo") == 0 {
+		// HELO names the library refuses before it talks to the server: the connection is open by then
+		c.Cfg.HELO = rapid.SampledFrom([]string{"mail gateway", "tab\tname", "x\r\nRSET", "nul\x00name", "fine.example"}).Draw(t, "heloname")
 	}
 	if rapid.IntRange(0, 4).Draw(t, "cancel") == 0 {
 		c.CancelAt = rapid.SampledFrom([]string{"ehlo#1", "starttls", "ehlo#2", "auth#1", "noop#1"}).Draw(t, "cancelat")
